@@ -48,9 +48,12 @@ PIPELINE = {
 CFG = {"cs": False, "cs_shortcuts": False}
 
 
-def rule_doc(i: int, kind: str, ls: dict):
-    det = {"sel": {"f": f"v{i}", "g|contains": "x"}, "other": {"h": i}}
-    cond = "sel and not other"
+CONDS = ["sel and not other", "sel and not (other or third)", "not (sel and other) or third", "1 of s* and not (other and third)"]
+
+
+def rule_doc(i: int, kind: str, ls: dict, cond_idx: int = 0):
+    det = {"sel": {"f": f"v{i}", "g|contains": "x"}, "other": {"h": i}, "third": {f"t{i}": f"w{i}"}}
+    cond = CONDS[cond_idx % len(CONDS)]
     if kind == "placeholder":
         det["sel"]["p|expand"] = "%known%"
     elif kind == "cased":  # unsupported value kind: NotImplementedError while rendering
@@ -61,7 +64,7 @@ def rule_doc(i: int, kind: str, ls: dict):
     elif kind == "missing":
         cond = "sel and nothere"
     elif kind == "multi":
-        cond = ["sel and not other", "other"]
+        cond = [cond, "other or third"]
     d = {"title": f"rule{i}", "logsource": dict(ls), "detection": dict(det, condition=cond), "fields": ["f", "h"]}
     return d
 
@@ -191,8 +194,8 @@ def check_case(case: dict) -> Outcome:
 def cases(draw):
     not_eq = draw(st.booleans())
     kinds = ["plain", "plain", "placeholder", "cased", "missing", "multi"] + (["neg_cased"] if not_eq else [])
-    docs = [rule_doc(i, draw(st.sampled_from(kinds)), draw(st.sampled_from(LOGSOURCES))) for i in range(draw(st.integers(1, 4)))]
-    probe = rule_doc(9, draw(st.sampled_from(["plain", "placeholder", "multi"])), draw(st.sampled_from(LOGSOURCES[:4] + LOGSOURCES[5:])))
+    docs = [rule_doc(i, draw(st.sampled_from(kinds)), draw(st.sampled_from(LOGSOURCES)), draw(st.integers(0, 3))) for i in range(draw(st.integers(1, 4)))]
+    probe = rule_doc(9, draw(st.sampled_from(["plain", "placeholder", "multi"])), draw(st.sampled_from(LOGSOURCES[:4] + LOGSOURCES[5:])), draw(st.integers(0, 3)))
     ops = []
     for _ in range(draw(st.integers(0, 8))):
         k = draw(st.sampled_from(["new_backend", "init", "load", "convert_rule", "convert_rule", "convert", "convert"]))
